@@ -689,6 +689,7 @@ func runC16(cfg Config) {
 	}
 	c16LargeChunks(cfg, rep, rng)
 	c16WindowChunks(cfg, rep, rng)
+	runGCSPrune(cfg, rep, m, rng)
 	rep.Write(cfg.Out)
 }
 
@@ -1173,6 +1174,7 @@ func runC20(cfg Config) {
 		}
 	}
 	c20WindowFrames(cfg, rep, rng, monitor)
+	storeOptsStores(cfg, rep, m, rng)
 	rep.Write(cfg.Out)
 }
 
